@@ -32,7 +32,8 @@ class FusionEngineEncoder:
         header.message_version = message.get_version()
         header.sequence_number = self.sequence_number
         header.source_identifier = source_identifier
-        self.sequence_number += 1
+        # The sequence number is a 32-bit header field: roll over instead of growing past what the header can hold.
+        self.sequence_number = (self.sequence_number + 1) % 2**32
 
         message_data = message.pack()
 
